@@ -45,8 +45,25 @@ def generate(rng, tier):
     for n in (0, 1, 255, 256, 257, 1023, 1024, 1025):
         cs += wrath_pair_cases(rng, special_key(rng), n, n, "boundary-length")
     cs += wrath_pair_cases(rng, rbytes(rng, 40), 70000, 66000, "crosses-65536")
-    for _ in range(60 if tier == "quick" else 800):
+    for _ in range(60 if tier == "quick" else 3000):
         cs += wrath_pair_cases(rng, special_key(rng), rng.randint(0, 2000), rng.randint(0, 2000), "random-stream")
+    # the pairing also holds at the header level: what the client's encrypter emits for a client header is what the
+    # server's decrypter decodes (typed helper and read-based call, the latter fed in arbitrary fragments)
+    import struct
+    for _ in range(40 if tier == "quick" else 600):
+        K = special_key(rng)
+        hdrs = [(rng.getrandbits(16), rng.getrandbits(32)) for _ in range(rng.randint(1, 8))]
+        ks = pyref.wrath_stream(K, pyref.WRATH_S)
+        wires = [ks.apply(pyref.client_header_plain(sz, op)) for sz, op in hdrs]
+        cs.append(Case("hdr w c %s %s" % (K.hex(), " ".join("ec:%d:%d" % h for h in hdrs)), "client-header-emit", " ".join(w.hex() for w in wires) + " ~0", dict(n=1)))
+        ops = []; exp = []
+        for (sz, op), w in zip(hdrs, wires):
+            if rng.random() < 0.5:
+                ops.append("dc:" + w.hex()); exp.append("%d:%d" % (sz, op))
+            else:
+                fr = partition(rng, w, max_chunk=3, p_empty=0)
+                ops.append("rc:" + ",".join("D" + f.hex() for f in fr if f)); exp.append("ok:%d:%d:u6" % (sz, op))
+        cs.append(Case("hdr w s %s %s" % (K.hex(), " ".join(ops)), "server-decodes-client-headers", " ".join(exp) + " ~0", dict(n=1)))
     if tier == "thorough":
         for _ in range(6):
             cs += wrath_pair_cases(rng, rbytes(rng, 40), 1 << 20, 70000, "1MiB-stream")
